@@ -337,7 +337,7 @@ class ExpressionParser:
         if len(factors) == 0:
             raise InvalidExpression("No factors")
 
-        exp: Optional[MathExpression] = None
+        exp: MathExpression
         if self.check(_IS_EXP):
             opType = self.current_token.type
             self.eat(opType)
@@ -345,18 +345,13 @@ class ExpressionParser:
                 raise InvalidSyntax("Expected an expression after ^ operator")
 
             right = self.parse_unary()
-            exp = PowerExpression(factors[-1], right)
+            # The exponent binds to the last factor only, e.g. "xy^2" is "x * y^2"
+            factors[-1] = PowerExpression(factors[-1], right)
 
-        if len(factors) == 1:
-            return exp or factors[0]
-
+        exp = factors.pop(0)
         while len(factors) > 0:
-            if exp is None:
-                exp = factors.pop(0)
-
             exp = MultiplyExpression(exp, factors.pop(0))
 
-        assert exp is not None
         return exp
 
     def parse_function(self) -> MathExpression:
